@@ -20,7 +20,7 @@ KEYS = ["simplify_expression", "expression_simplification_threshold", "input_tim
         "sim_time", "max_step_size", "integration_accuracy_abs", "integration_accuracy_rel"]
 OPTVALS = {"simplify_expression": ["sympy.expand(expr)", "expr", "sympy.logcombine(sympy.powsimp(sympy.expand(expr)))"],
            "expression_simplification_threshold": [50, 5000],
-           "input_time_symbol": ["s", "T_"],
+           "input_time_symbol": ["s", "T_", "x", "y", "V", "I", "g", "tau", "E_L"],   # incl. names that are variables / parameters of other pool inputs (a name reserved by one call must be free again in the next)
            "output_timestep_symbol": ["dt", "__dt"],
            "differential_order_symbol": ["_D", "__deriv"],
            "sim_time": [0.5, "20E-3"], "max_step_size": [0.25, "1E-3"], "integration_accuracy_abs": [1e-9, "1E-4"], "integration_accuracy_rel": [1e-9]}
